@@ -202,6 +202,97 @@ type hostileRec struct {
 	Why   string `json:"why"`
 }
 
+type item struct {
+	desc string
+	body []byte
+}
+
+func fieldCorpus(reqs []requestf.RequestPacket) []item {
+	var out []item
+	var bases []requestf.RequestPacket
+	seen := map[string]bool{}
+	for _, r := range reqs {
+		if (r.SFuncName == "noret" || r.SFuncName == "echoStr") && !seen[r.SFuncName] {
+			seen[r.SFuncName] = true
+			bases = append(bases, r)
+		}
+	}
+	if len(bases) > 0 {
+		ping := bases[0]
+		ping.SFuncName = "tars_ping"
+		ping.SBuffer = nil
+		bases = append(bases, ping)
+	}
+	long := strings.Repeat("k", 300)
+	vals := []string{"", "a", "|", "a|", "|b", "a|b", "a|b|", "a|b|c", "||", "|||", "a|b|c|d", "a|b|c|d|e",
+		"f.2-ee824ad0eb4dacf56b29d230a229c584|030019ac000010796162bc5900000021",
+		"f.2-ee824ad0eb4dacf56b29d230a229c584|030019ac000010796162bc5900000021|030019ac000010796162bc5900000021",
+		"f.-1-x|y|z", "f.99999999999999999999-x|y", "0.|", ".|.", "-|-|-", "f|", "1.2.3.4-|", "\x00|\x00", long, long + "|" + long, "\xff\xfe|\xff"}
+	keys := []string{"STATUS_DYED_KEY", "STATUS_TRACE_KEY", "STATUS_GRID_KEY", "STATUS_SETNAME_VALUE", "STATUS_RESULT_CODE", "STATUS_RESULT_DESC", "STATUS_DYED_FILENAME", ""}
+	mts := []int32{0, 0x01, 0x02, 0x04, 0x08, 0x10, 0x100, 0x104, 0x1ff, 0x7fffffff, -1, -0x80000000}
+	put := func(desc string, rq requestf.RequestPacket) {
+		out = append(out, item{"request field: " + desc + " (" + rq.SFuncName + ")", encodeReq(&rq)})
+	}
+	for _, b := range bases {
+		for _, mt := range mts {
+			for _, k := range keys {
+				for _, v := range vals {
+					rq := b
+					rq.IMessageType = mt
+					rq.Status = map[string]string{k: v}
+					put(fmt.Sprintf("messageType %#x, status[%q]=%q", mt, k, clip(v)), rq)
+				}
+			}
+			rq := b
+			rq.IMessageType = mt
+			rq.Status = map[string]string{}
+			for _, k := range keys {
+				rq.Status[k] = "a|b"
+			}
+			put(fmt.Sprintf("messageType %#x, every status key", mt), rq)
+			rq.Status = nil
+			put(fmt.Sprintf("messageType %#x, no status", mt), rq)
+		}
+		for _, to := range []int32{0, 1, -1, 0x7fffffff, -0x80000000} {
+			for _, pt := range []int8{0, 1, 2, -1, 127, -128} {
+				for _, ver := range []int16{0, 1, 2, 3, 4, -1, 0x7fff, -0x8000} {
+					rq := b
+					rq.ITimeout, rq.CPacketType, rq.IVersion = to, pt, ver
+					put(fmt.Sprintf("timeout %d, packetType %d, version %d", to, pt, ver), rq)
+				}
+			}
+		}
+		for _, nm := range []string{"", "x", b.SServantName + "x", strings.ToLower(b.SServantName), long, "\x00", "a.b.c@tcp -h 1"} {
+			rq := b
+			rq.SServantName = nm
+			put(fmt.Sprintf("servant %q", clip(nm)), rq)
+			rq = b
+			rq.SFuncName = nm
+			put(fmt.Sprintf("function %q", clip(nm)), rq)
+		}
+		for _, k := range append(keys, "vcall", long) {
+			for _, v := range []string{"", "0", "-1", "x", long} {
+				rq := b
+				rq.Context = map[string]string{k: v}
+				put(fmt.Sprintf("context[%q]=%q", clip(k), clip(v)), rq)
+			}
+		}
+		for _, id := range []int32{0, -1, 0x7fffffff, -0x80000000} {
+			rq := b
+			rq.IRequestId = id
+			put(fmt.Sprintf("request id %d", id), rq)
+		}
+	}
+	return out
+}
+
+func clip(s string) string {
+	if len(s) > 40 {
+		return s[:40] + "..."
+	}
+	return s
+}
+
 func hostileMain(seed int64, n int, out string) error {
 	rng := rand.New(rand.NewSource(seed))
 	reqs := captureRequests(seed)
@@ -219,10 +310,6 @@ func hostileMain(seed int64, n int, out string) error {
 	probeReq.Context = map[string]string{"vcall": "0"}
 	probe := frame(encodeReq(&probeReq))
 	// corpus: (description, body)
-	type item struct {
-		desc string
-		body []byte
-	}
 	var corpus []item
 	for _, r := range reqs {
 		args := make([]byte, len(r.SBuffer))
@@ -254,6 +341,10 @@ func hostileMain(seed int64, n int, out string) error {
 	if len(corpus) > n {
 		corpus = corpus[:n]
 	}
+	// well-formed packets whose header fields are what the server interprets before (and instead of) dispatching:
+	// every field through its boundary values, the message-type bits against the status keys they switch on.
+	// Always all of them: the class is small and each combination is a different path of Protocol.Invoke.
+	corpus = append(corpus, fieldCorpus(reqs)...)
 	w, err := tr.Create(out)
 	if err != nil {
 		return err
